@@ -4,6 +4,7 @@ Theorems: Properties/C03_spec.v (the model's verdict `conforms` is equivalent to
 rules; the known finding only widens acceptance).  The statement 'conformant => accepted by the implementation' is carried
 by the correspondence: everything the executable specification accepts -- plain, threaded, with pipelines, with imports,
 and the systematic families -- must be accepted by the implementation under every rendering."""
+import os, json
 import random, json, collections
 import common, kernel, engine, families, scenario as S
 import pipes, imports as I
@@ -51,7 +52,26 @@ def run(ctx):
     ev3 = engine.run_items(ctx, iitems, coq_file_fn=I.coq_cases_file_i)
     for it in iitems:
         it.scenario = {"native": it.scenario["native"], "imports": [{k: v for k, v in imp.items() if k != "builder"} for imp in it.scenario["imports"]]}
-    allitems = items + pitems + iitems
+    # (d) import trees (files that import files, diamonds, connections at every level)
+    import imports_deep as D
+    ditems = []
+    for k in range(24 * scale):
+        case = D.gen_valid_deep(rng, threads=(k % 4 == 0))
+        for f in case["files"].values():
+            f["file"] = None
+        r = {"spelling": ["mixed", "alias", "id"][k % 3], "shuffle": k % 2 == 1, "seed": rng.randrange(1 << 30)}
+        doc = D.render_deep(case, ctx.repo_copy, random.Random(r["seed"]), r["spelling"], r["shuffle"])
+        r["imported_files"] = {}
+        for f in case["files"].values():
+            try:
+                r["imported_files"][f["file"]] = json.load(open(os.path.join(ctx.repo_copy, "schemas", f["file"] + ".json")))
+            except Exception:
+                r["imported_files"][f["file"]] = None
+        ditems.append(engine.Item(case, doc, "valid-import-tree", render=r, group="d%d" % k))
+    ev3 = engine.run_items_grouped(ctx, ditems, coq_file_fn=D.coq_cases_file_deep, chunk=6) and ev3
+    for it in ditems:
+        it.scenario = D.strip(it.scenario)
+    allitems = items + pitems + iitems + ditems
     engine.report(ctx, allitems, "T3 correspondence: a scenario the executable specification accepts is not accepted by the implementation (or vice versa)")
     ctx.coverage.update({
         "rule": "conformant-by-construction scenarios of 3-14 actions (plus threaded actions; thread forests to depth 3), each rendered twice (id / alias / mixed spelling, numeric aliases, shuffled arrays and key order, descriptive properties); the guaranteed-ancestry family (5 gates x 4 x 4 branch shapes); scenarios with 0-2 aggregation pipelines; importing scenarios with generated import files; non-trivial = at least one checkpoint; distinct by abstract scenario",
